@@ -809,7 +809,30 @@ func c01RunStage(c *Ctx, name, rule string, cases []*c01Case, exhaustive bool, n
 			sample = append(sample, cs)
 		}
 	}
-	if !c.Thorough() && len(sample) > 3000 {
+	if c.Search {
+		// a proof obligation or the translator broke: look harder for a failing input — every case of at most two
+		// operator nodes (where a changed precedence row shows first) and a ten times larger sample of the rest
+		var small, rest []*c01Case
+		for i, cs := range cases {
+			if !cs.minified {
+				continue
+			}
+			if cs.tag == "ops=1" || cs.tag == "ops=2" {
+				small = append(small, cs)
+			} else if (i*7919+int(c.Seed))%100 < 10*nodeShare {
+				rest = append(rest, cs)
+			}
+		}
+		if len(rest) > 30000 {
+			step := float64(len(rest)) / 30000
+			var cut []*c01Case
+			for k := 0; k < 30000; k++ {
+				cut = append(cut, rest[int(float64(k)*step)])
+			}
+			rest = cut
+		}
+		sample = append(small, rest...)
+	} else if !c.Thorough() && len(sample) > 3000 {
 		// quick tier: at most 3000 programs per stage through node (evenly spread over the stage)
 		step := float64(len(sample)) / 3000
 		var cut []*c01Case
